@@ -32,6 +32,7 @@ FEATURE_TEXT = {
     "hash": "has # hash and 'quotes' inside",
     "crlf_escape": "escapes \\r\\n \\t kept",
     "indent8": "        eight spaces then text",
+    "linesep": "sepa\u2028rated by U+2028 and \x0c form feed",
 }
 
 
@@ -168,7 +169,7 @@ def skeleton_cases(rep: Report, t: str):
 
 def layout_cases(rep: Report, t: str):
     kinds = '{"triple", "triple_single", "raw_triple", "bytes_triple", "fstring_triple", "docstring", "single", "concat", "comment"}'
-    feats = '{"tab", "trailing", "blanks3", "blanks2", "blank1", "long", "backslash", "hash", "crlf_escape", "indent8"}'
+    feats = '{"tab", "trailing", "blanks3", "blanks2", "blank1", "long", "backslash", "hash", "crlf_escape", "indent8", "linesep"}'
     places = '{"module", "in_def", "after_decorator", "between_imports", "call_arg", "dict_value", "list_elem_blank", "kwarg_blank", "tuple_elem_blank", "nested_last_stmt", "last_in_def", "after_import_in_def", "fsegment"}'
     lens, maxf = ("{60, 100}", 2) if t == "quick" else ("{60, 79, 100}", 3)
     cfg = "\n".join(["CONSTANTS", f"  Kinds = {kinds}", f"  Features = {feats}", f"  Places = {places}",
@@ -211,8 +212,8 @@ def main(argv=None) -> int:
         meta[key] = c
         items.append((key, text, {"max_line_length": c["len"]}))
     skeletons = skeleton_cases(rep, t)
-    if t == "quick" and len(skeletons) > 1500:
-        skeletons = rng.sample(skeletons, 1500)
+    if t == "quick" and len(skeletons) > 700:
+        skeletons = rng.sample(skeletons, 700)
     for i, c in enumerate(skeletons):
         text = render_skeleton(c)
         if not proj.valid(text):
